@@ -407,6 +407,13 @@ class FactSet:
                     self.inlined_calls = inline_helpers(raw['functions'], inv, root)
                 except FileNotFoundError:
                     self.inlined_calls = 0
+            self.desugared = 0
+            if not os.environ.get('ORV_NO_INLINE'):
+                from .normalize import desugar, opaque_tokens
+                for v in raw['functions'].values():
+                    if v.get('body') and (v.get('loc') or '').startswith(root) and opaque_tokens(v['body']):
+                        v['body'], n = desugar(v['body'])
+                        self.desugared += n
             for v in raw['functions'].values():
                 if v.get('body') and (v.get('loc') or '').startswith(root):
                     v['body'] = normalise(v['body'])
@@ -421,6 +428,18 @@ class FactSet:
                 except FileNotFoundError:
                     known = None
                 self.folded_locals = []
+                try:
+                    with open(os.path.join(os.path.dirname(os.path.abspath(__file__)), 'inventory.json')) as fh:
+                        opq = json.load(fh).get('opaque')
+                except FileNotFoundError:
+                    opq = None
+                if opq is not None:
+                    from .normalize import new_opaque
+                    for k, v in raw['functions'].items():
+                        if v.get('body') and (v.get('loc') or '').startswith(root):
+                            n = new_opaque(v['body'], opq.get(k, ()))
+                            if n:
+                                v['_opaque_new'] = n
                 if known is not None:
                     set_context(raw['functions'])
                     for k, v in raw['functions'].items():
